@@ -260,6 +260,22 @@ def run(pid, tier, replay):
             if not o["ok"]:
                 res.note("spec-drift: a step of the real code in %s is not a step of Pipeline.tla (implementation differs from the implementation-level model; property-level checks still decide)" % cfgname(c))
         res.cov["refinement_StepOK_checked_on"] = [cfgname(c) for c, _ in drifts]
+    e2e_n = 0
+    if pid == "C04":
+        # termination of the whole operations (runcrypt level, real threads): the scheduler harness drives
+        # run_multicry directly, so the way runcrypt sets the pipeline up is covered here
+        from props import c01
+        exe = c01.e2e_exe(2)
+        ejobs = [(exe, ["rt", T, 0, 4 * 32 + 17, 1 if tier == "thorough" or T != 16 else 5, "rot"]) for T in ((1, 2, 3, 4, 16) if tier == "thorough" else (1, 2, 4, 16))]
+        with cf.ThreadPoolExecutor(6) as ex2:
+            parts = list(ex2.map(lambda j: wv.record(res, pid + "/e2e%d" % j[0], [j[1]]), enumerate(ejobs)))
+        for part in parts:
+            for e in part:
+                e2e_n += 1
+                if e["e"] == "abort":
+                    res.violation("%s: encrypt/verify/decrypt of a %d-byte input with T=%d (chunk %d bytes, cmode %d, hmode %d) did not return normally (%s)" %
+                                  ("non-termination" if e["how"] == "timeout" else "abnormal termination", e["n"], e["T"], e["S"], e["cm"], e["hm"], e["how"]), {"events": [e]})
+        res.cov["end_to_end_operations_checked_for_termination"] = e2e_n
     res.cov.update({"traces_validated_against_impl": len(jobs), "code_graph_states": code_states, "code_graph_edges": code_edges,
                     "code_reexecutions": runs,
                     "samples": [{"configuration": cfgname(c), "explorer": {k: v for k, v in summ.items() if k != "e"}} for c, (np_, summ) in list(zip(cfgs, graphs))[:5]],
